@@ -332,6 +332,11 @@ func (e *c32Env) runCase(c c32Case) (res c32Result) {
 		if c.S3Fault == "CompleteMultipartUpload" {
 			fs.failNext(c.S3Fault)
 		}
+		if c.S3Fault == "UploadGone" {
+			// the multipart upload was aborted / expired on the S3 side (lifecycle rule,
+			// operator clean-up): completion answers NoSuchUpload
+			fs.dropUploads()
+		}
 		rec, p = c32Do(h, http.MethodPost, "/lfs/uploads/"+ir.UploadID+"/complete", nil, bytes.NewReader(cb))
 		if p != nil {
 			add("multipart-handler-panic", "handleHTTPUploadComplete panicked: %v", p)
@@ -555,7 +560,7 @@ func c32Cases(thorough bool) []c32Case {
 	}
 	// two-part sessions with an S3 fault (full list, all brokers)
 	full2 := []c32CPart{{1, "ok"}, {2, "ok"}}
-	for _, f := range []string{"CreateMultipartUpload", "UploadPart", "CompleteMultipartUpload"} {
+	for _, f := range []string{"CreateMultipartUpload", "UploadPart", "CompleteMultipartUpload", "UploadGone"} {
 		for _, b := range brokers {
 			out = append(out, c32Case{Kind: "session", Sizes: []int64{c32MiB5, 1}, Complete: full2, Broker: b, S3Fault: f})
 		}
